@@ -317,28 +317,48 @@ func landmarkFact(ch *syntax.RequiredLandmarkChain, in []rune, p int) string {
 		}
 		return 0, 0, false
 	}
+	// Necessary condition only (never stronger than what a match implies): for the first landmark SOME occurrence
+	// of SOME alternative must begin (leading whitespace included) after nothing but leading-loop characters; the
+	// next landmark is then looked for from the smallest end any qualifying occurrence allows. Taking "the first
+	// alternative that matches at the first position" instead is order-dependent: `(?:-\\s+|\\s+-)` at the same
+	// core position has one alternative that starts at the core and one that starts at the whitespace before it.
 	pos := p
 	for li, lm := range ch.Landmarks {
-		found := false
-		for q := pos; q < L && !found; q++ {
+		best := -1
+		blocked := ""
+		for q := pos; q < L && (best < 0 || q < best); q++ {
 			for _, alt := range lm.Alternatives {
-				if st, me, ok := altAt(alt, q); ok {
-					if li == 0 {
-						for k := p; k < st; k++ {
-							if ch.LeadingLoopSet == nil || !ch.LeadingLoopSet.CharIn(in[k]) {
-								return fmt.Sprintf("landmark chain: rune %q between match position %d and the first landmark at %d is not in the leading loop set", in[k], p, st)
+				st, me, ok := altAt(alt, q)
+				if !ok {
+					continue
+				}
+				if li == 0 {
+					clean := true
+					for k := p; k < st; k++ {
+						if ch.LeadingLoopSet == nil || !ch.LeadingLoopSet.CharIn(in[k]) {
+							clean = false
+							if blocked == "" {
+								blocked = fmt.Sprintf("landmark chain: rune %q between match position %d and the first landmark at %d is not in the leading loop set (and no other occurrence of the landmark qualifies)", in[k], p, st)
 							}
+							break
 						}
 					}
-					pos = me
-					found = true
-					break
+					if !clean {
+						continue
+					}
+				}
+				if best < 0 || me < best {
+					best = me
 				}
 			}
 		}
-		if !found {
+		if best < 0 {
+			if blocked != "" {
+				return blocked
+			}
 			return fmt.Sprintf("landmark chain: landmark %d cannot be found at or after %d (match position %d)", li, pos, p)
 		}
+		pos = best
 	}
 	return ""
 }
